@@ -418,12 +418,16 @@ def runFlatFuel (fuel : Nat) (C : List Stmt) (orc : List Bool) : Result :=
 def runFlat (C : List Stmt) (orc : List Bool) : Result :=
   runFlatFuel (defaultFuel C.length orc) C orc
 
-/-- The state machine starts with `state = label of the first subroutine` (0). The empty list of
-subroutines is emitted as `// Intentionally empty.`: returns at once. -/
+/-- The state machine starts with `state_ = 0` (set by `Start()` in `_generate_iteration.py`), i.e.
+with `switch (0)`.  The empty list of subroutines is emitted as `// Intentionally empty.`:
+returns at once. -/
 def runSubFuel (fuel : Nat) (subs : List (List Stmt)) (orc : List Bool) : Result :=
   match subs with
   | [] => ⟨[], .ended⟩
-  | _ => runM (subStep subs) fuel (0, 0) orc
+  | _ =>
+    match findSub subs 0 with
+    | some i => runM (subStep subs) fuel (i, 0) orc
+    | none => ⟨[], .crash .invalidState⟩
 
 def runSub (subs : List (List Stmt)) (orc : List Bool) : Result :=
   runSubFuel (defaultFuel (totalLen subs) orc) subs orc
